@@ -91,6 +91,13 @@ def check_output(inst, side, pw, ids, x, acc):
         for k in sorted(want):
             if got.get(k) != want[k]:
                 problems.append("%s = %r, released format has %r" % (k, got.get(k), want[k]))
+    if fields is not None:
+        try:
+            extra = sorted(set(json.loads(blob[1].decode("ascii"))) - set(want))
+        except Exception:
+            extra = []
+        if extra:
+            acc.note("serialize() emits additional keys %s (allowed: the released fields are all present and unchanged)" % extra)
     for p in problems[:3]:
         key = p.split(" ")[0] if p.split(" ")[0] in want else p.split(":")[0][:30]
         acc.violation("C10/%s/%s/output-format/%s" % (F, side, key.replace(" ", "-")),
